@@ -147,7 +147,27 @@ pub mod rt {
 
     /// Interpret an operation list on an iterator. The trait bounds are part of the check:
     /// a struct lacking one of the four traits does not compile here.
-    pub fn run_iter<I>(mut it: I, ops: &[&str], show: fn(&I::Item) -> String) -> String
+    pub fn run_iter<I>(it: I, ops: &[&str], show: fn(&I::Item) -> String) -> String
+    where
+        I: Iterator + DoubleEndedIterator + ExactSizeIterator + FusedIterator,
+    {
+        run_iter_impl(it, ops, show, &|_it, _op| None)
+    }
+
+    /// Same, for item types that are `Ord`: adds the finishers `max` and `min` (called directly on the iterator).
+    pub fn run_iter_ord<I>(it: I, ops: &[&str], show: fn(&I::Item) -> String) -> String
+    where
+        I: Iterator + DoubleEndedIterator + ExactSizeIterator + FusedIterator,
+        I::Item: Ord,
+    {
+        run_iter_impl(it, ops, show, &|it, op| match op {
+            "max" => Some(opt(it.max(), show)),
+            "min" => Some(opt(it.min(), show)),
+            _ => None,
+        })
+    }
+
+    fn run_iter_impl<I>(mut it: I, ops: &[&str], show: fn(&I::Item) -> String, extra: &dyn Fn(I, &str) -> Option<String>) -> String
     where
         I: Iterator + DoubleEndedIterator + ExactSizeIterator + FusedIterator,
     {
@@ -205,6 +225,20 @@ pub mod rt {
                         acc
                     }),
                     "skiplast" => opt(it.skip(1).last(), show),
+                    "find" => opt(it.find(|_| true), show),
+                    "rfind" => opt(it.rfind(|_| true), show),
+                    "reduce" => opt(it.reduce(|_a, b| b), show),
+                    x if x.starts_with("position:") => {
+                        let k: usize = x[9..].parse().unwrap();
+                        let mut c = 0usize;
+                        match it.position(move |_| {
+                            c += 1;
+                            c - 1 == k
+                        }) {
+                            Some(p) => format!("P{}", p),
+                            None => "PN".to_string(),
+                        }
+                    }
                     "rposition" => match it.rposition(|_| true) {
                         Some(p) => format!("P{}", p),
                         None => "PN".to_string(),
@@ -218,7 +252,10 @@ pub mod rt {
                         list(&it.skip(k).rev().collect::<Vec<_>>(), show)
                     }
                     "stepby2" => list(&it.step_by(2).collect::<Vec<_>>(), show),
-                    _ => panic!("HARNESS: unknown op {}", op),
+                    _ => match extra(it, op) {
+                        Some(s) => s,
+                        None => panic!("HARNESS: unknown op {}", op),
+                    },
                 };
                 out.push(s);
                 return out.join(" ");
